@@ -16,7 +16,7 @@ META = {
                    '(I + eig contract) Ritz pair: the reported eigenvalue is the stub eigenvalue selected as closest to sigma at the last micro-step and the '
                    'returned eigentensor is the frame applied to its eigenvector, so x^H A x == v^H micro_op v, x^H B x == v^H micro_gevp v and the '
                    'eigenvalue is the generalised Rayleigh quotient. (IV) best-so-far bookkeeping over sweeps: a further sweep never moves the reported '
-                   'eigenvalue away from sigma. power_method: system handed to sle.als, normalisation, reported Rayleigh quotient x^H A x / x^H B x.',
+                   'eigenvalue away from sigma. power_method: system handed to sle.als, normalisation, reported Rayleigh quotient x^H A x / x^H B x. NOT solver-decided, sampled by the validation run on random Hermitian pencils (scenario ritz_bounds): Rayleigh quotient and unit norm, eigenvalue <= lambda_max, exact dominant eigentensor returned, exact extremal pair at maximal ranks, power_method converging to the pair nearest its shift.',
     'bounds': {'quick': 'orders 2-3, mode size 2, operator/guess ranks {1,2}, real and complex, 0-3 deflation tensors, standard and generalised, number_ev 1-2, '
                         'repeats 1-2, orderings of |lambda - sigma|: all permutations for micro size <= 3, three fixed ones above',
                'thorough': 'adds order 3 rank-2 complex with deflation, 2 deflation tensors, more orderings'},
